@@ -3,11 +3,18 @@
 spec/codec/X509Parse.tla: the parse pipeline StrictDER -> LaxDER -> TrailingCheck -> FieldParse(..) as a
 state machine over (certificate template x structure-preserving mutation); invariant Coherent (mixed
 (object, error) outcomes unreachable).  TLC enumerates the case space and exports, per case, every outcome
-class a final state can have = the set the contract allows; a second machine gives the concatenation law of
-ParseCertificates.  Binding (harness/c11): every case is materialized with the standard library's encoder
+class a final state can have = the set the contract allows; the ORDER of the extensions is a dimension of the
+well-formed case (every permutation of up to three / four extensions, six schemes beyond; the unhandled critical
+extensions are a function of the set: UnhandledIsOrderFree); a second machine gives the concatenation law of
+ParseCertificates; a third one (history) states that parsing is a FUNCTION of the bytes handed in (Functional,
+PerCertificate, ArgsIntact), checked exhaustively on histories of two calls, and generates random walks over
+objects of one shape that differ in one slot (issuer / subject / alternative names in spellings of equal length,
+or one mutation) through a fresh slice, the object's own slice and one re-used buffer.  Binding (harness/c11): every case is materialized with the standard library's encoder
 and parsed by the fork (differential on well-formed input, class-in-allowed-set on mutated input); the
 oracle-free laws (totality, coherence, raw-slice fidelity, concatenation) run on the repository's testdata
-and on seeded mutations for all twelve entry points.
+and on seeded mutations for all twelve entry points; extensions are permuted in the DER tree as the case says;
+the histories are replayed serially and on concurrent goroutines (-race), every call compared with what the same
+bytes give alone; b-after-a through one buffer, twice, and later again = b alone for all twelve entry points.
 """
 import json
 import os
@@ -23,6 +30,11 @@ ASSUME = [
     "EKU is a known ExtKeyUsage in the fork and an unknown one in crypto/x509 (x509.go ExtKeyUsageCertificateTransparency)",
     "templates: subsets of 15 extension kinds (quick: all of size <= 2, all-but-one, all; thorough: size <= 4) x 5 name string "
     "types x 3 key types x validity before/after 2050, payloads drawn from fixed pools with the seed; one mutation per case",
+    "extension orders: all permutations for templates with <= 3 (thorough: 4) extensions, otherwise the encoder's order, its reverse, a "
+    "rotation, uninterpreted extensions first / in the middle (both directions); mutated cases with a pinned outcome also in reverse order",
+    "histories: 400 (thorough 4000) random walks of 12 calls over 6 shapes x 8 equal-layout variants x up to 7 mutations; 'alone' for a "
+    "mutated object is the specification's class plus the parser's own reading from a never-seen slice; a history starts in whatever "
+    "state earlier histories left (one process, one re-used buffer) - a law about a function must hold there too",
     "'for all byte strings' is sampled: testdata corpus, well-formed objects of every kind and seeded byte/TLV mutations; "
     "non-termination = no return within 10 s",
 ]
@@ -39,29 +51,68 @@ def build_cases(ctx, r):
         t = rec["t"]
         t["exts"] = sorted(t["exts"])
         key = json.dumps(t, sort_keys=True)
-        g = groups.setdefault(key, {"tpl": t, "muts": {}})
-        g["muts"].setdefault(rec["m"], set()).add(rec["r"])
+        g = groups.setdefault(key, {"tpl": t, "muts": {}, "uce": {}})
+        mk = (rec["m"], tuple(rec["o"]))
+        g["muts"].setdefault(mk, set()).add(rec["r"])
+        if rec["m"] == "none":
+            g["uce"].setdefault(mk, set()).add(tuple(sorted(rec["u"])))
     if not groups:
         raise Infra("TLC exported no case")
-    out, ncases = [], 0
+    out, ncases, norders = [], 0, 0
     for key in sorted(groups):
         g = groups[key]
         ml = []
-        for name in sorted(g["muts"]):
-            allowed = sorted(g["muts"][name])
+        for mk in sorted(g["muts"]):
+            name, order = mk
+            allowed = sorted(g["muts"][mk])
             if not set(allowed) <= set(CLASSES) or name not in muts:
                 raise Infra("bad case export: %s %s" % (name, allowed))
             m = muts[name]
-            ml.append({"name": name, "allowed": allowed, "stage": m["stage"], "effect": m["effect"], "scope": m["scope"],
-                       "part": m["part"]})
+            mc = {"name": name, "allowed": allowed, "stage": m["stage"], "effect": m["effect"], "scope": m["scope"],
+                  "part": m["part"], "ord": list(order)}
+            if name == "none":
+                u = g["uce"][mk]
+                if len(u) != 1:
+                    raise Infra("the unhandled critical extensions of %s in the order %s are not a function of the case: %s" % (key, order, u))
+                mc["uce"] = list(next(iter(u)))
+                norders += 1
+            ml.append(mc)
             ncases += 1
-        if [m for m in ml if m["name"] == "none"][0]["allowed"] != ["ok"]:
+        if any(m["allowed"] != ["ok"] for m in ml if m["name"] == "none"):
             raise Infra("specification does not give <<obj, nil>> for the unmutated template %s" % key)
         out.append({"tpl": g["tpl"], "muts": ml})
     used = {m["name"] for g in out for m in g["muts"]}
     if used != set(muts):
         raise Infra("mutations of the table never applicable to a template (vacuous rows): %s" % sorted(set(muts) - used))
+    if norders < len(out) + len(out) // 2:
+        raise Infra("the order dimension is vacuous: %d orders for %d templates" % (norders, len(out)))
+    ctx.log("orders: %d (template, extension order) well-formed cases" % norders)
     return out, ncases
+
+
+def sort_exts(x):
+    """TLC prints sets in its own order: normalize the template records inside an exported history."""
+    if isinstance(x, dict):
+        if "exts" in x and isinstance(x["exts"], list):
+            x["exts"] = sorted(x["exts"])
+        for v in x.values():
+            sort_exts(v)
+    elif isinstance(x, list):
+        for v in x:
+            sort_exts(v)
+    return x
+
+
+def histories(ctx):
+    """The history machine: the function law checked exhaustively on short histories, random walks exported."""
+    ctx.tlc("codec", "MCX509Parse", ctx.pick("X509ParseHistory.cfg", "X509ParseHistoryFull.cfg"), timeout=3000)
+    r = ctx.tlc("codec", "MCX509Parse", "X509ParseHistorySim.cfg", simulate=ctx.pick(400, 4000), depth=40, count=False)
+    walks = [sort_exts(w) for w in r.records.get("HIST", [])]
+    if len(walks) < ctx.pick(400, 4000):
+        raise Infra("history run exported %d histories" % len(walks))
+    if any(len(w["calls"]) != 12 for w in walks):
+        raise Infra("history of unexpected length")
+    return walks
 
 
 def run(ctx, replay=None):
@@ -77,11 +128,20 @@ def run(ctx, replay=None):
     concat = rc.records.get("CONCAT", [])
     if len(concat) < 30:
         raise Infra("concatenation run exported %d cases" % len(concat))
-    ctx.log("cases: %d templates, %d (template, mutation) cases, %d concatenation cases" % (len(groups), ncases, len(concat)))
+    # 2b. the history machine (parsing is a function of the bytes handed in)
+    walks = histories(ctx)
+    ctx.log("cases: %d templates, %d (template, mutation, order) cases, %d concatenation cases, %d histories of %d calls" % (
+        len(groups), ncases, len(concat), len(walks), len(walks[0]["calls"])))
     ctx.exhaustive = True
     cases = ctx.write_ndjson("cases.ndjson", groups)
     cc = ctx.write_ndjson("concat.ndjson", concat)
     # 3. replay into the real parser
     ctx.go_test("c11", run="TestReplay$", env={"VERIF_CASES": cases, "VERIF_CONCAT": cc}, timeout=3000, name="c11replay")
+    # 3b. histories into the real parser, serially, and the oracle-free function law on all twelve entry points;
+    #     then the histories again on concurrent goroutines with the race detector on
+    hp = ctx.write_ndjson("histories.ndjson", walks)
+    ctx.go_test("c11", run="TestHistory$", env={"VERIF_HIST": hp}, timeout=3000, name="c11history")
+    ctx.go_test("c11", run="TestHistoryConcurrent$", env={"VERIF_HIST": hp, "VERIF_HIST_CONCURRENT": ctx.pick(200, 0)}, race=True,
+                timeout=3000, name="c11historyrace")
     # 4. oracle-free laws on the corpus and on seeded mutations, all twelve entry points
     ctx.go_test("c11", run="TestLaws$", env={"VERIF_C11_MUTS": ctx.pick(150, 8000)}, timeout=3000, name="c11laws")
